@@ -48,7 +48,7 @@ def run(ctx):
             for val in (F(5, 2), F(-4)):
                 pts.append({"dt": pts[0]["dt"], "cal": pts[0]["cal"], "control": dict(pts[0]["control"]), "state": {n_: val for n_ in pts[0]["state"]}})
         cal = pts[0]["cal"]
-        cse = ctx.rng.random() < 0.5
+        cse = ctx.rng.random() < 0.5 or i == 2       # (the many-temporaries definition only makes sense with CSE on)
         try:
             ekf = eh.compile_ekf(d, process, sensor, cal, ctx.rng, cse=cse)
         except Exception as e:
